@@ -16,9 +16,11 @@ ASSUMPTIONS = [
     "cyclic fragment spreads are outside the specification's defined domain; the model reads it as: each fragment is "
     "visited once per collected set, and a field pair already under comparison on the current chain is not compared again "
     "(a conflict exists iff a finite chain of nested pairs ends in a direct conflict)",
-    "the memoised algorithm of the implementation (steps A-J with PairSet/OrderedPairSet) is not modelled in Coq; its "
-    "agreement with the specification function is established by the correspondence run only; the two memo tables "
-    "themselves are modelled (Valid/PairSet.v) and tied by random has/add scripts",
+    "the memoised algorithm of the implementation (steps A-J with PairSet/OrderedPairSet, field maps per selection set) is "
+    "modelled in Valid/OverlapOpt.v and tied to the real rule by verdict, by the sequence of memo has/add decisions and by the "
+    "final memo tables (read from a subclass of the rule instance; if these internals are not readable the tie degrades to the "
+    "verdict). Its equivalence with the specification function is proved only for documents without named fragments "
+    "(C14_equiv_partial); with fragments it is checked per generated document (extracted opt_conflicts vs extracted spec_conflicts)",
     "out of the modelled fragment (skipped, counted): fields or type conditions the schema cannot type, __schema/__type, "
     "unknown or duplicate fragments, duplicate argument/input-field names, block strings in arguments, @stream, "
     "fragment variable definitions / spread arguments (experimental syntax)",
@@ -51,7 +53,63 @@ ARG_FAMILIES = [
      ["(y: {a10: 2, a2: 3, a1: 2})"]),
     (["(z: [{p: 1, q: {r: [1], p: 2}}])", "(z: [{q: {p: 2, r: [1]}, p: 1}])"], ["(z: [{q: {p: 2, r: [1]}}, {p: 1}])"]),
     (["(x: 1, y: {p: 1, r: []}, w: null)", "(w: null, y: {r: [], p: 1}, x: 1)"], ["(w: null, y: {r: [], p: 1})"]),
+    (["(y: {l: [{p: 1, a1: 2}]})", "(y: {l: [{a1: 2, p: 1}]})"], ["(y: {l: [{a1: 1, p: 2}]})"]),
+    (["(y: {l: [{p: 1, q: {a1: 1, a2: 2}}, {p: 2}], p: 3})", "(y: {p: 3, l: [{q: {a2: 2, a1: 1}, p: 1}, {p: 2}]})"],
+     ["(y: {p: 3, l: [{p: 2}, {q: {a2: 2, a1: 1}, p: 1}]})"]),
+    (["(y: {ll: [[{p: 1, r: [2]}], []]})", "(y: {ll: [[{r: [2], p: 1}], []]})"], ["(y: {ll: [[], [{r: [2], p: 1}]]})"]),
+    (["(z: [[{p: 1, q: {p: 2, a1: 3}}]])", "(z: [[{q: {a1: 3, p: 2}, p: 1}]])"], ["(z: [[{q: {a1: 3, p: 2}}], [{p: 1}]])"]),
 ]
+
+
+def random_arg_family(rng):
+    """A random nested argument value rendered with the input-object keys permuted independently at every
+    nesting level (objects inside lists inside objects, lists of lists, ...), plus near misses."""
+    keys = ["p", "q", "r", "l", "ll", "a1", "a2", "a10"]
+    leaves = ["1", "2", "$v", "$w", '"s"', "null", "true", "A", "1.5"]
+
+    def tree(depth):
+        r = rng.random()
+        if depth <= 0 or r < 0.2:
+            return ("leaf", rng.choice(leaves))
+        if r < 0.6:
+            ks = rng.sample(keys, rng.randint(2, 3))
+            return ("obj", [(k, tree(depth - 1)) for k in ks])
+        return ("list", [tree(depth - 1) for _ in range(rng.randint(1, 2))])
+
+    def render(t, shuffle):
+        if t[0] == "leaf":
+            return t[1]
+        if t[0] == "list":
+            return "[" + ", ".join(render(x, shuffle) for x in t[1]) + "]"
+        fs = list(t[1])
+        if shuffle:
+            rng.shuffle(fs)
+        return "{" + ", ".join(f"{k}: {render(v, shuffle)}" for k, v in fs) + "}"
+
+    def mutate_leaf(t):
+        """Change one leaf (or swap two list items): a value that is really different."""
+        if t[0] == "leaf":
+            return ("leaf", rng.choice([x for x in leaves if x != t[1]]))
+        if t[0] == "list":
+            if len(t[1]) >= 2 and rng.random() < 0.4 and t[1][0] != t[1][1]:
+                return ("list", [t[1][1], t[1][0]] + t[1][2:])
+            i = rng.randrange(len(t[1]))
+            return ("list", [mutate_leaf(x) if j == i else x for j, x in enumerate(t[1])])
+        i = rng.randrange(len(t[1]))
+        return ("obj", [(k, mutate_leaf(v)) if j == i else (k, v) for j, (k, v) in enumerate(t[1])])
+
+    # make sure there is an object below a list below an object, or a list of lists, most of the time
+    for _ in range(8):
+        t = ("obj", [("l", tree(3)), (rng.choice(["p", "q"]), tree(2))]) if rng.random() < 0.5 else tree(4)
+        txt = render(t, False)
+        if "[{" in txt or "[[" in txt:
+            break
+    name = rng.choice(["y", "z"])
+    eq = [f"({name}: {render(t, False)})"] + [f"({name}: {render(t, True)})" for _ in range(3)]
+    ne = [f"({name}: {render(mutate_leaf(t), True)})" for _ in range(2)]
+    return (eq, ne)
+
+
 DIRECTIVES = [" @include(if: $c)", " @skip(if: true)", " @dir(a: 1)", " @dir(a: 2)", " @include(if: true) @dir"]
 
 
@@ -91,7 +149,7 @@ def gen_schema(rng):
         names = rng.sample(LEAF_FIELDS + COMP_FIELDS, rng.randint(1, 3))
         ifields[i] = {n: rng.choice(cand[n]) for n in names}
     out = ["directive @dir(a: Int) repeatable on FIELD | FRAGMENT_SPREAD | INLINE_FRAGMENT",
-           "enum E { A B }", "scalar S", "input In { p: Int q: In r: [Int] a1: Int a2: Int a10: Int }"]
+           "enum E { A B }", "scalar S", "input In { p: Int q: In r: [Int] l: [In] ll: [[In]] a1: Int a2: Int a10: Int }"]
     for i in ints:
         out.append(f"interface {i} {{ " + " ".join(f"{n}{ARGS_DEF}: {t}" for n, t in ifields[i].items()) + " }")
     for o in objs:
@@ -132,6 +190,8 @@ class DocGen:
         self.p_args = rng.choice([0.0, 0.2, 0.5])
         self.p_alias = rng.choice([0.3, 0.6, 0.9])
         self.fams = rng.sample(ARG_FAMILIES, rng.randint(1, 2))
+        if rng.random() < 0.5:
+            self.fams.append(random_arg_family(rng))
         self.argpool = [a for eq, ne in self.fams for a in eq + eq + ne]
         # consistent mode: alias and arguments are a function of the field name, so that fields with
         # the same response name are the same field call (conflicts then come from type shapes only)
